@@ -128,6 +128,22 @@ impl Family for B4 {
         let use_at_end = rng.chance(1, 3) || history.last().map(|p| p.is_empty()).unwrap_or(false);
         let mut scn = Scn { start_generated: rng.chance(1, 2), first_password, steps, seed: rng.next_u64(), use_at_end, tty_stdout: rng.chance(1, 4), typed_pass: false };
         scn.typed_pass = (scn.seed >> 5) & 3 == 1; // derived, not drawn
+        // a third of the histories end with a detour through a password that differs from the final one
+        // only by surrounding white space (a pasted password): afterwards the padded one is an earlier,
+        // different password and must have stopped working
+        let mut t = scn.seed ^ 0x7061_6464;
+        if crate::rng::splitmix(&mut t) % 3 == 0 {
+            let last = history.last().cloned().unwrap_or_default();
+            let padded = match crate::rng::splitmix(&mut t) % 4 {
+                0 => format!("{} ", last),
+                1 => format!(" {}", last),
+                2 => format!("{}\n", last),
+                _ => format!("\t{} ", last),
+            };
+            scn.steps.push(Step::ChangePass(padded));
+            scn.steps.push(Step::ChangePass(last));
+            scn.steps.push(Step::TryOldPassword(history.len()));
+        }
         scn
     }
     fn execute(&self, s: &Scn) -> RunOut {
